@@ -36,4 +36,32 @@ PROPS = {
         "unproved": ["format!/from_str_radix themselves are modelled (Id/Hex.v), tied by correspondence only"],
         "assumptions": ["first_quintant table entries < 5 and 12 origins: re-evaluated against the regenerated tables on every run"],
     },
+    "C07": {
+        "level": "proof",
+        "technique": "Coq proof (unbounded, axiom-free) over the Gallina model of cell_to_children/cell_to_parent + vm_compute correspondence + exhaustive tree walk r<=7",
+        "claim_text": "Kernel-checked theorems for every canonical cell and every target level the code accepts (span <= 20 levels; beyond that the model, like the code, returns Err, which is part of the statement): the children call returns exactly the spec-level descendants (count 12/5/4 per level, pairwise distinct IDs, each a canonical cell of the requested resolution whose ancestor is the cell), ancestors compose, children of children are the deeper children, every cell has exactly one parent. The hierarchy spec (anc, desc_cells, fanout) is written from the property text on cell descriptions, independent of the bit layout.",
+        "level_note": "Trusted: Coq kernel + vm_compute; the hand-written model of cell_to_children / cell_to_parent / get_res0_cells (tied by correspondence: ~3.4k calls per run, outcome and full child lists compared exactly); Rust integer semantics as in Base/Word.v; table dump. Theorems are axiom-free.",
+        "coq_targets": ["theories/Props/C07.vo"] + ID_TARGETS,
+        "axiom_free": True,
+        "corr": True,
+        "corr_rule": "cell_to_children / cell_to_parent / get_res0_cells: every cell of resolution <= 2 x targets, random cells of every resolution x bounded fan-out targets, default arguments, too-coarse / too-fine / too-deep targets; outcome and complete result lists compared exactly",
+        "proved_full": ["C07_children_spec", "C07_children_outcome", "C07_parent_spec", "C07_desc_length", "C07_children_NoDup",
+                        "C07_desc_char", "C07_anc_compose", "C07_desc_compose", "C07_unique_parent"],
+        "unproved": [],
+        "assumptions": ["first_quintant table entries < 5 (re-evaluated on the regenerated tables)"],
+    },
+    "C20": {
+        "level": "proof",
+        "technique": "Coq proof (unbounded, axiom-free) of the order/hierarchy lemmas on the layout + vm_compute correspondence + sorted exhaustive lists r<=7",
+        "claim_text": "Kernel-checked theorems for all canonical cells: for a < b of equal resolution >= 2 every ancestor at levels 1..r is <=, all descendants of a precede all descendants of b, and among cells of resolution >= 1 the subtree of any cell is exactly one open ID interval (sub_lo, sub_hi); siblings (4 children, 5 quintants, 12 base cells) are consecutive multiples of the sibling stride; the base-cell exception is exhibited by an Example.",
+        "level_note": "Trusted: as C05/C07 (the statements are about `layout`, which C05 ties to serialize, and `anc`/`desc_cells`, which C07 ties to the API). Axiom-free.",
+        "coq_targets": ["theories/Props/C20.vo"] + ID_TARGETS,
+        "axiom_free": True,
+        "corr": True,
+        "corr_rule": "cell_to_parent / cell_to_children on pairs of same-resolution cells at adjacent curve positions straddling a parent boundary at every level; results compared exactly with the model",
+        "proved_full": ["C20_anc_monotone", "C20_descendants_ordered", "C20_subtree_interval", "C20_siblings_stride",
+                        "C20_children_consecutive", "C20_quintants_stride", "C20_base_stride"],
+        "unproved": [],
+        "assumptions": [],
+    },
 }
